@@ -1,6 +1,7 @@
 import TFV.Properties.EA
 import TFV.Properties.Src.Engine
 import TFV.Properties.Src.Skeleton
+import TFV.Properties.Src.GetAim
 #print axioms TFV.EA.C03_calls
 #print axioms TFV.EA.C03_stop_exact
 #print axioms TFV.EA.C03_aim_sides
@@ -15,3 +16,6 @@ import TFV.Properties.Src.Skeleton
 #print axioms TFV.SrcTie.C03_src_fit_stops_at_first
 #print axioms TFV.SrcTie.C03_src_fit_full
 #print axioms TFV.SrcTie.C03_src_fit_is_model_run
+#print axioms TFV.SrcTie.C03_src_get_aim
+#print axioms TFV.SrcTie.C03_src_aim_rule_min
+#print axioms TFV.SrcTie.C03_src_aim_rule_max
